@@ -216,7 +216,8 @@ def run_case(es, rec):
     # ---- determinism of sample numbers --------------------------------------------------------------------------
     if es["sample_nums"]["kind"] == "sha256":
         seed = es["sample_nums"]["seed"]
-        other = [CVR(id=f"zz{i}", votes={"q": {"a": i}}) for i in range(len(sim.cvr_list))]
+        # different contents, and phantom records in front of / between real ones: numbers depend on position only
+        other = [CVR(id=f"zz{i}", votes={"q": {"a": i}}, phantom=(i % 3 == 0), pool=(i % 2 == 0)) for i in range(len(sim.cvr_list))]
         CVR.assign_sample_nums(other, SHA256(seed))
         again = [CVR(id=f"yy{i}", votes={}) for i in range(len(sim.cvr_list))]
         CVR.assign_sample_nums(again, SHA256(seed + 1))
